@@ -479,12 +479,40 @@ def run(ctx):
             c2 = dict(c)
             c2.update({"methods": ["pc", "vmf"], "xbig": None, "scales": [scales[0], scales[2], scales[4], scales[5], scales[6], scales[7]]})
             add(c2)
+    # bonds of dimension exactly 1: product states under a non-interacting H, and one entangled parent-child pair with
+    # uncoupled spectator subtrees; phase-sensitive comparison, all schemes
+    for i in range(3 if quick else 9):
+        n_ = rng.randrange(3, 6)
+        par = gen_shape(rng, n_, ["random", "binary", "linear", "star"][i % 4])
+        desc = nest(par)
+        for d in preorder_nodes(desc):
+            d["b"] = ["s"]
+        # pre-order id of every node = its dof id (one spin per node); pick a parent-child pair
+        ids_, kids_ = {}, []
+        def _walk(d, p, acc=ids_):
+            me = len(acc); acc[id(d)] = me
+            if p is not None:
+                kids_.append((p, me))
+            for ch in d["c"]:
+                _walk(ch, me)
+        _walk(desc, None)
+        terms = []
+        for a in range(n_):
+            terms.append(["sigma_z", [a], (rng.randrange(3, 9)) / 8.0])       # all positive: <H> of the all-up state is large
+            terms.append(["sigma_x", [a], dy(rng)])
+        pair = None
+        if i % 3 != 0:
+            pair = list(kids_[rng.randrange(len(kids_))])
+            terms.append(["sigma_z sigma_z", pair, dy(rng)])
+            terms.append(["sigma_x sigma_x", pair, dy(rng)])
+        add({"kind": "bond1", "tree": desc, "terms": terms, "pair": pair, "methods": ["vmf", "ps", "ps2", "pc"], "imag": [False, True],
+             "step": 0.25 if pair is None else 0.125, "nsteps": 3, "shape": "bond1", "n": n_})
     # one case per process (start-up ~3 s each); generous time-out: a loaded machine must not look like a hang
     shards = [{"seed": ctx.seed, "cases": [c]} for c in ocases]
     ores = ctx.impl_par("c12_oracle.py", shards, timeout=3000, par=16)
     oracle_fail = []
     oracle_runs = 0
-    ostats = {"exact": 0, "small": 0, "chain": 0, "aux": 0, "coeff": 0, "run": 0, "caps": 0, "scale": 0}
+    ostats = {"exact": 0, "small": 0, "chain": 0, "aux": 0, "coeff": 0, "run": 0, "caps": 0, "scale": 0, "bond1": 0}
     worst = {}
     regimes = {"exact_complete": 0, "second_order_after_bond_shrink": 0}
     ratios = {}
